@@ -1273,7 +1273,7 @@ def randmio_dir(R, itr, seed=None):
 
                 i.setflags(write=True)
                 j.setflags(write=True)
-                i[e1] = d
+                j[e1] = d
                 j[e2] = b  # reassign edge indices
                 eff += 1
                 break
